@@ -701,7 +701,7 @@ def scorerhi(ctx, z, **kwargs):
 @defun_wrapped
 def coulombc(ctx, l, eta, _cache={}):
     if (l, eta) in _cache and _cache[l,eta][0] >= ctx.prec:
-        return +_cache[l,eta][1]
+        return +ctx.convert(_cache[l,eta][1])
     G3 = ctx.loggamma(2*l+2)
     G1 = ctx.loggamma(1+l+ctx.j*eta)
     G2 = ctx.loggamma(1+l-ctx.j*eta)
@@ -737,7 +737,7 @@ def coulombf(ctx, l, eta, z, w=1, chop=True, **kwargs):
 @defun_wrapped
 def _coulomb_chi(ctx, l, eta, _cache={}):
     if (l, eta) in _cache and _cache[l,eta][0] >= ctx.prec:
-        return _cache[l,eta][1]
+        return ctx.convert(_cache[l,eta][1])
     def terms():
         l2 = -l-1
         jeta = ctx.j*eta
